@@ -376,6 +376,8 @@ H("endpoint_accept_auth_failure_native", ["C09", "C08"], "replay-only", "endpoin
   [("x", "u8")], 4, [], ["Endpoint::handle", "Endpoint::accept", "ConnectionIndex::remove_initial"], "native replay body of E2 query e2_endpoint_accept_routing")
 H("endpoint_dispose_incoming_native", ["C09", "C08"], "replay-only", "endpoint::dispose_incoming_native",
   [("refuse", "bool")], 4, [], ["Endpoint::ignore", "Endpoint::refuse", "Endpoint::clean_up_incoming"], "native replay body of E2 queries e2_clean_up_incoming / e2_endpoint_refuse_cleans_up / e2_endpoint_ignore_cleans_up")
+H("streams_received_accounting_native", ["C06"], "replay-only", "connection::streams::received_accounting_native",
+  [("over", "bool")], 4, [], ["StreamsState::received", "Recv::ingest"], "native replay body of E2 query e2_streams_received_accounting")
 H("conn_peer_params_cid_auth_native", ["C14", "C04"], "replay-only", "connection::peer_params_cid_auth_native",
   [("server", "bool"), ("which", "u8")], 4, [], ["Connection::handle_peer_params"], "native replay body of E2 query e2_peer_params_cid_auth")
 
